@@ -1987,3 +1987,178 @@ func ExplicitBoolReturns(p *load.Program, name func(*ssa.Function) string, overl
 	}
 	return out, notes
 }
+
+// DispatchMethodValues undoes "pick the method first, call it later":
+//
+//	f := x.m1
+//	if cond { f = x.m2 }
+//	r := f(args)        // the next statement
+//	REST
+//
+// becomes
+//
+//	sel := cond
+//	if sel { r := x.m2(args); REST } else { r := x.m1(args); REST }
+//
+// The condition is evaluated at the same place and exactly once, the receiver is a plain identifier
+// evaluated with nothing in between, f has no other use, and REST (the remainder of the enclosing
+// statement list) is repeated verbatim in both branches, so behaviour is unchanged; what changes is
+// that both calls are static, which is what the rules resolve. An overlay that does not type-check
+// (a label in REST, say) is abandoned by the caller.
+func DispatchMethodValues(p *load.Program, overlay map[string][]byte) (map[string][]byte, []string) {
+	out := map[string][]byte{}
+	var notes []string
+	src := func(file string) []byte {
+		if b, ok := overlay[file]; ok {
+			return b
+		}
+		b, _ := readFile(file)
+		return b
+	}
+	n := 0
+	for _, pk := range p.Closure {
+		for _, f := range pk.Syntax {
+			file := p.Fset.Position(f.Pos()).Filename
+			if strings.HasSuffix(file, "_test.go") {
+				continue
+			}
+			b := src(file)
+			off := func(pos token.Pos) int { return p.Fset.Position(pos).Offset }
+			text := func(from, to token.Pos) string { return string(b[off(from):off(to)]) }
+			methodValue := func(e ast.Expr) (*ast.SelectorExpr, *ast.Ident) {
+				se, ok := e.(*ast.SelectorExpr)
+				if !ok {
+					return nil, nil
+				}
+				x, ok := se.X.(*ast.Ident)
+				if !ok {
+					return nil, nil
+				}
+				sel := pk.TypesInfo.Selections[se]
+				if sel == nil || sel.Kind() != types.MethodVal {
+					return nil, nil
+				}
+				if _, isVar := pk.TypesInfo.Uses[x].(*types.Var); !isVar {
+					return nil, nil
+				}
+				return se, x
+			}
+			type repl struct {
+				from, to int
+				text     string
+			}
+			var repls []repl
+			done := false
+			ast.Inspect(f, func(nd ast.Node) bool {
+				if done {
+					return false
+				}
+				var list []ast.Stmt
+				switch x := nd.(type) {
+				case *ast.BlockStmt:
+					list = x.List
+				case *ast.CaseClause:
+					list = x.Body
+				default:
+					return true
+				}
+				for i := 0; i+2 < len(list); i++ {
+					as, ok := list[i].(*ast.AssignStmt)
+					if !ok || as.Tok != token.DEFINE || len(as.Lhs) != 1 || len(as.Rhs) != 1 {
+						continue
+					}
+					fid, ok := as.Lhs[0].(*ast.Ident)
+					if !ok {
+						continue
+					}
+					fobj := pk.TypesInfo.Defs[fid]
+					m1, x1 := methodValue(as.Rhs[0])
+					if fobj == nil || m1 == nil {
+						continue
+					}
+					ifs, ok := list[i+1].(*ast.IfStmt)
+					if !ok || ifs.Init != nil || ifs.Else != nil || len(ifs.Body.List) != 1 {
+						continue
+					}
+					as2, ok := ifs.Body.List[0].(*ast.AssignStmt)
+					if !ok || as2.Tok != token.ASSIGN || len(as2.Lhs) != 1 || len(as2.Rhs) != 1 {
+						continue
+					}
+					if id2, ok := as2.Lhs[0].(*ast.Ident); !ok || pk.TypesInfo.Uses[id2] != fobj {
+						continue
+					}
+					m2, x2 := methodValue(as2.Rhs[0])
+					if m2 == nil || pk.TypesInfo.Uses[x1] != pk.TypesInfo.Uses[x2] {
+						continue
+					}
+					// the condition must not mention f
+					bad := false
+					ast.Inspect(ifs.Cond, func(m ast.Node) bool {
+						if id, ok := m.(*ast.Ident); ok && pk.TypesInfo.Uses[id] == fobj {
+							bad = true
+						}
+						return true
+					})
+					// the call: the very next statement, `lhs := f(args)` / `lhs = f(args)` / `f(args)`
+					var call *ast.CallExpr
+					switch st := list[i+2].(type) {
+					case *ast.AssignStmt:
+						if len(st.Rhs) == 1 {
+							call, _ = st.Rhs[0].(*ast.CallExpr)
+						}
+					case *ast.ExprStmt:
+						call, _ = st.X.(*ast.CallExpr)
+					}
+					if call == nil || bad {
+						continue
+					}
+					cid, ok := call.Fun.(*ast.Ident)
+					if !ok || pk.TypesInfo.Uses[cid] != fobj {
+						continue
+					}
+					// no other use of f from the if statement's end on, none in the arguments
+					uses := 0
+					for _, st := range list[i+2:] {
+						ast.Inspect(st, func(m ast.Node) bool {
+							if id, ok := m.(*ast.Ident); ok && pk.TypesInfo.Uses[id] == fobj {
+								uses++
+							}
+							return true
+						})
+					}
+					if uses != 1 {
+						continue
+					}
+					n++
+					sel := fmt.Sprintf("mv__%d", n)
+					callSt := list[i+2]
+					last := list[len(list)-1]
+					callText := func(m *ast.SelectorExpr) string {
+						return text(callSt.Pos(), cid.Pos()) + text(m.Pos(), m.End()) + text(cid.End(), callSt.End())
+					}
+					rest := ""
+					if len(list) > i+3 {
+						rest = text(callSt.End(), last.End())
+					}
+					var sb strings.Builder
+					sb.WriteString(sel + " := " + text(ifs.Cond.Pos(), ifs.Cond.End()) + "\n")
+					sb.WriteString("if " + sel + " {\n" + callText(m2) + rest + "\n} else {\n" + callText(m1) + rest + "\n}")
+					repls = append(repls, repl{off(as.Pos()), off(last.End()), sb.String()})
+					notes = append(notes, fmt.Sprintf("method value chosen before the call written as two static calls at %s (analysis only)", p.Fset.Position(as.Pos())))
+					done = true // one rewrite per file and pass: offsets of nested lists would overlap
+					return false
+				}
+				return true
+			})
+			if len(repls) == 0 {
+				continue
+			}
+			nb := append([]byte(nil), b...)
+			for _, r := range repls {
+				nb = append(nb[:r.from], append([]byte(r.text), nb[r.to:]...)...)
+			}
+			out[file] = pruneUnusedImports(file, nb)
+		}
+	}
+	return out, notes
+}
